@@ -668,7 +668,19 @@ func (e *env) dumpFull() string {
 	e.icmp6.Lock()
 	var rs []string
 	for _, r := range e.icmp6.LANRouters {
-		rs = append(rs, fmt.Sprintf("%s M=%v O=%v pref=%d hop=%d life=%v reach=%d retr=%d mtu=%d first=%s rdl=%v dsl=%v tlla=%s",
+		var extra []string
+		for _, x := range r.Options.Routes {
+			extra = append(extra, "rt:"+hx(x.Prefix))
+		}
+		for _, x := range r.Options.RDNSSList {
+			for _, a := range x.Servers {
+				extra = append(extra, "dns:"+hx(a))
+			}
+		}
+		for _, x := range r.Options.DNSSearchLists {
+			extra = append(extra, "sl:"+strings.Join(x.DomainNames, "+"))
+		}
+		rs = append(rs, strings.Join(extra, ";")+fmt.Sprintf(" %s M=%v O=%v pref=%d hop=%d life=%v reach=%d retr=%d mtu=%d first=%s rdl=%v dsl=%v tlla=%s",
 			ipKey(r.Addr.IP), r.ManagedFlag, r.OtherCondigFlag, r.Preference, r.CurHopLimit, r.DefaultLifetime, r.ReacheableTime, r.RetransTimer,
 			r.Options.MTU, hx(r.Options.FirstPrefix), r.Options.RDNSS.Lifetime, r.Options.DNSSearchList.Lifetime, hx(r.Options.TargetLLA.MAC)))
 	}
